@@ -171,7 +171,7 @@ def whole_chain(ctx, db):
         ctx.ob(rid, f, f['key'], ok, 'notify_awaiters returns resume_chain(_chain)', desc='notify_awaiters does not return resume_chain(_chain)')
     for f in db.need('cocls::awaiter::resume_chain')[:1]:
         ops = [e for e in f.events() if e.k == 'call' and atomic.is_atomic_call(e)]
-        ok = len(ops) == 1 and atomic.opname(ops[0]) == 'exchange' and (ops[0].get('args') or [{}])[0].get('const') == 0 and ops[0].get('use') == 'arg:cocls::awaiter::resume_chain_lk' and atomic.acq(atomic.success_order(ops[0]))
+        ok = len(ops) == 1 and atomic.opname(ops[0]) == 'exchange' and (ops[0].get('args') or [{}])[0].get('const') == 0 and flows_only_into(f, ops[0], 'cocls::awaiter::resume_chain_lk') and atomic.acq(atomic.success_order(ops[0]))
         ctx.ob(rid, f, f['key'], ok, 'resume_chain: exchange(nullptr, >= acquire) feeding resume_chain_lk', desc='resume_chain is not one acquiring exchange(nullptr)')
 
 
